@@ -23,3 +23,28 @@ func (s *BadgerStore) VerifC15DumpDB() (keys [][]byte, vals [][]byte, err error)
 	}
 	return keys, vals, nil
 }
+
+// VerifC15WithMutex runs f while holding the store mutex (a writer that delays everybody queued behind it).
+func (s *BadgerStore) VerifC15WithMutex(f func()) {
+	s.mutex.Lock()
+	defer s.mutex.Unlock()
+	f()
+}
+
+// VerifC15KeyVersions returns the Badger commit version of every key of the snapshots database: the
+// order in which write transactions committed can be read off the keys they wrote.
+func (s *BadgerStore) VerifC15KeyVersions() (map[string]uint64, error) {
+	txn := s.snapshotsDB.NewTransaction(false)
+	defer txn.Discard()
+
+	opts := badger.DefaultIteratorOptions
+	opts.PrefetchValues = false
+	it := txn.NewIterator(opts)
+	defer it.Close()
+	res := make(map[string]uint64)
+	for it.Rewind(); it.Valid(); it.Next() {
+		item := it.Item()
+		res[string(item.KeyCopy(nil))] = item.Version()
+	}
+	return res, nil
+}
